@@ -1,6 +1,10 @@
 package main
 
 import (
+	"sync"
+	"os/exec"
+	"os"
+	"time"
 	"context"
 	"fmt"
 	"math"
@@ -101,6 +105,13 @@ func wmap(kv ...string) string {
 
 func ws(s string) string { return "S" + hx([]byte(s)) }
 
+func minInt(a, b int) int {
+	if a < b {
+		return a
+	}
+	return b
+}
+
 func tf(b bool) string {
 	if b {
 		return "T"
@@ -110,7 +121,7 @@ func tf(b bool) string {
 
 // rowValues: wire values of every kind a caller puts in a row
 var rowValues = []string{"D+:10:0", "D+:9:0", "D+:2:0", "D-:5:-1", "D+:0:0", "D+:100:-1", "D+:1234567890123456789012345678901234:3", "Dnan", "Dinf",
-	"S" + "3130", "S" + "39", "S" + "32", "S" + "61", "S" + "", "S" + "41", "N", "T", "F", "Ii:10", "Ii:9", "Ii8:-3", "G322e35", "A2 Ii:1 Ii:2", "A0"}
+	"S" + "3130", "S" + "39", "S" + "32", "S" + "61", "S" + "", "S" + "41", "N", "T", "F", "P", "Ps", "Pm", "Pt", "Pf", "Ii:10", "Ii:9", "Ii8:-3", "G322e35", "A2 Ii:1 Ii:2", "A0"}
 
 // rowsBlock evaluates each formula (over the variables a and b) on many rows of differing kinds, the same parsed
 // tree serving all rows of a formula (see implEvalInner), rows in a shuffled order
@@ -560,6 +571,13 @@ func suiteCompare(o *Out, thorough bool, seed int64) {
 			}
 		}
 	}
+	// null in all its shapes: the untyped nil and typed nil pointers of several Go types, every ordered pair
+	for _, x := range []string{"N", "P", "Ps", "Pm", "Pt", "Pf"} {
+		for _, y := range []string{"N", "P", "Ps", "Pm", "Pt", "Pf", "Ii:0", "S", "F"} {
+			emitEval(o, "[a === b, a !== b, a == b, a != b, a === null, b == null, a ?? 1, !a]", 0, "-", wmap("a", x, "b", y), true)
+			emitEval(o, "[m.a === m.b, m.a == m.b, m.a !== null]", 0, "-", wmap("m", wmap("a", x, "b", y)), true)
+		}
+	}
 	rowsBlock(o, r, []string{"a < b", "a > b", "a <= b", "a >= b", "a == b", "a != b", "a === b", "a !== b", "[a < b, a == b, a > b]", "a < b ? 'lt' : a > b ? 'gt' : 'no'", "min(a, b) <= max(a, b)"}, 60)
 	for i := 0; i < n; i++ {
 		a, b := randOperand(r), randOperand(r)
@@ -678,12 +696,13 @@ func snapshotOracle(o *Out, line, text, hosts, data string) {
 func suiteLocals(o *Out, thorough bool, seed int64) {
 	hosts := "1:0:0:2:0:a,a:" + ws("r") + ";2:0:1:2:0:a:Ii:7"
 	shared := "A3 Ii:1 Ii:2 " + wmap("q", "Ii:5")
-	datas := []string{"-", "O0", wmap("x", "Ii:3", "y", shared, "z", shared, "f", "H1", "g", "H2", "$b", "Ii:9", "n", "N", "p", "D+:125:-1", "q", "D-:3:0"),
+	datas := []string{"-", "O0", wmap("x", "Ii:3", "y", shared, "z", shared, "f", "H1", "g", "H2", "$b", "Ii:9", "n", "N", "p", "D+:125:-1", "q", "D-:3:0", "x$", "Ii:8", "a$b", ws("ab")),
 		wmap("x", "Ii:3", "f", "H1", "g", "H2", "p", "D+:1234567890123456789012345678901234:-14", "q", "D-:1234567890123456789015:-1", "$b", "D+:6666666666666666666666666666666667:-33")}
 	fixed := []string{"a = 1", "1 = 2", "($a) = 1", "a.b = 1", "'s' = 1", "$a.b = 1", "x = 1", "[$a] = 1", "$a = $b = 2", "$a = 1, $a", "$a = 1, $a = $a + 1, $a",
 		"[$a = 1, $a + 1, $a = 5, $a]", "f($a = 2, $a)", "$c", "$a, $a = 1", "($a = 1) + ($a = 2) + $a", "$a = x, x", "g($a = 1, $a = 2, $a)",
 		"true ? $a = 1 : $b = 2", "$a = [1,2], $a", "$a = y, $a", "$b", "$b = $b + 1", "this.$b", "$a = null, $a", "x = ($a = 1)", "$a = (1, 2)", "$a = 1 ? 2 : 3",
 		"y", "z", "f(y, z)", "$a = y, $b = z, [$a, $b]",
+		"x$ = 1", "a$b = 2, a$b", "_$ = 3", "x$", "a$b + 1", "$a$ = 4, $a$", "$$ = 5, $$", "$ = 6, $", "x$ = x$ + 1", "[a$b = 1]", "f(x$ = 1)", "$a$b = x$, [$a$b, x$]",
 		"$h = f, $h($h = g, 1)", "$h = f, $h(1, $h = g), $h", "$h = g, $h($h = f)", "$m = this, $m.f($m = null, 2)", "$h = f, [$h(1, 2), $h = g, $h(3)]",
 		"n!.f($a = 1), $a", "n!.f($a = 1)", "n.f($a = 1), $a", "nope!.k.f(g($a = 2)), $a", "(n!.f)($a = 1)", "x($a = 1), $a", "'s'($a = 1), $a", "nofn($a = 1, g(2)), $a",
 		"f($a = 1, n!.k, $b = 2), [$a, $b]", "f(g($a = 1), $a), $a", "[n!.k, $a = 1], $a", "$a = 1, f($a, $a = 2, $a), $a",
@@ -809,6 +828,120 @@ func suiteMisuse(o *Out, thorough bool, seed int64) {
 		}
 	}
 	o.Notes = append(o.Notes, fmt.Sprintf("%d misuse programs (non-function callee, arity, unconvertible argument, string positions, invalid regexp, array/map comparison, missing struct field, bad assignment target, spread misuse): each must return an error", len(bad)))
+	// values that contain themselves: a formula can store the data map in one of its own locals (`$t = this`) or in an
+	// array inside it; whatever is then done with the value must end in a value or an error.  Each program runs in a
+	// process of its own, because a stack overflow is fatal to the whole process, not a panic that Resolve could recover.
+	{
+		cyc := []string{"$t = this, '' + $t", "$t = this, $t + ''", "$t = this, toString($t)", "$t = this, len($t)", "$t = this, h($t)", "$t = this, g($t)", "$t = this, $t()",
+			"$t = this, $t == $t", "$t = this, $t === this", "$t = this, typeof $t", "$t = this, $t.a", "$t = this, $t.$t.$t.a", "$t = this, !$t", "$t = this, $t + 1", "$t = this, -$t",
+			"$t = this, [$t, $t]", "$t = [this], join($t, ',')", "$t = [this], includes($t, 'a')", "$t = [this], '' + $t", "$t = this, $t ? 1 : 2", "$t = this, $t < 's'", "$t = this, 's' < $t",
+			"$t = this, max($t)", "$t = this, upper($t)", "$t = this, $u = $t, $u.$t.a", "$t = this, mapToArr([$t], 'a')", "$t = this, $t.s + $t.$t.s", "$t = this, nofn($t)", "$t = this, $t.k.j($t)"}
+		type pr struct{ out, errText string }
+		res := make([]pr, len(cyc))
+		var wg sync.WaitGroup
+		sem := make(chan struct{}, 16)
+		for i := range cyc {
+			wg.Add(1)
+			sem <- struct{}{}
+			go func(i int) {
+				defer wg.Done()
+				defer func() { <-sem }()
+				cctx, cancel := context.WithTimeout(context.Background(), 30*time.Second)
+				defer cancel()
+				cmd := exec.CommandContext(cctx, os.Args[0], "probe", hx([]byte(cyc[i])))
+				var stderr strings.Builder
+				cmd.Stderr = &limitWriter{w: &stderr, n: 400}
+				out, err := cmd.Output()
+				res[i] = pr{strings.TrimSpace(string(out)), ""}
+				if err != nil {
+					first := strings.SplitN(stderr.String(), "\n", 2)[0]
+					res[i].errText = fmt.Sprintf("%v: %s", err, first)
+				}
+			}(i)
+		}
+		wg.Wait()
+		for i, t := range cyc {
+			ln := "NOP\tcyclic\t" + hx([]byte(t))
+			o.Case(ln, "-", true)
+			switch {
+			case res[i].errText != "":
+				o.Fail(ln, fmt.Sprintf("evaluating %q took the whole process down (%s)", t, res[i].errText))
+			case res[i].out == "PANIC":
+				o.Fail(ln, fmt.Sprintf("evaluating %q panicked", t))
+			case res[i].out != "V" && res[i].out != "E":
+				o.Fail(ln, fmt.Sprintf("evaluating %q: unexpected outcome %q", t, res[i].out))
+			}
+		}
+	}
+	// formulas near the 64 KiB bound in every recursive shape of the evaluator: terminate with a value or an error
+	{
+		rep := strings.Repeat
+		big := []struct{ name, text, want string }{
+			{"sum-chain", "1" + rep(" + 1", 16000), "16001"},
+			{"parens", rep("(", 30000) + "1" + rep(")", 30000), "1"},
+			{"prefix-chain", rep("- ", 30000) + "1", "1"},
+			{"not-chain", rep("!", 60000) + "0", "false"},
+			{"array-nest", rep("[", 30000) + rep("]", 30000), ""},
+			{"member-chain", "m" + rep(".k", 30000), "<nil>"},
+			{"assert-chain", "m" + rep("!.m", 20000), ""},
+			{"call-nest", rep("hi(", 20000) + "1" + rep(")", 20000), ""},
+			{"comma-chain", "1" + rep(", 1", 20000), "1"},
+			{"cond-nest", rep("1 ? ", 10000) + "2" + rep(" : 3", 10000), "2"},
+			{"cond-chain", rep("0 ? 1 : ", 9000) + "7", "7"},
+			{"assign-chain", rep("$a = ", 12000) + "1", "1"},
+			{"long-string", "len('" + rep("a", 65000) + "')", "65000"},
+			{"array-wide", "len(join([" + rep("'a', ", 12000) + "'a'], ''))", "12001"},
+			{"args-wide", "max(" + rep("1, ", 20000) + "2)", "2"},
+			{"concat", "len('x'" + rep(" + 'y'", 9000) + ")", "9001"},
+			{"and-chain", "1" + rep(" && 1", 12000), "1"},
+			{"coalesce-chain", "n" + rep(" ?? n", 12000) + " ?? 5", "5"},
+			{"typeof-chain", rep("typeof ", 9000) + "1", "string"},
+			{"spread-wide", "max([" + rep("1, ", 20000) + "3]...)", "3"},
+		}
+		bd := map[string]interface{}{"n": nil, "hi": func(x interface{}) (interface{}, error) { return x, nil }}
+		mm := map[string]interface{}{}
+		mm["m"] = mm
+		bd["m"] = mm
+		for _, b := range big {
+			ln := fmt.Sprintf("NOP\tevalbig\t%s:%d", b.name, len(b.text))
+			o.Case(ln, "-", true)
+			src, err := formula.ParseSourceCode([]byte(b.text))
+			if err != nil {
+				o.Fail(ln, "a well-formed formula of "+fmt.Sprint(len(b.text))+" bytes was rejected: "+err.Error()[:minInt(len(err.Error()), 80)])
+				continue
+			}
+			type res struct {
+				v   interface{}
+				e   error
+				pan bool
+				msg string
+			}
+			ch := make(chan res, 1)
+			t0 := time.Now()
+			go func() {
+				var rr res
+				rn := formula.NewRunner()
+				rn.SetThis(bd)
+				rr.pan, rr.msg = protect(func() { rr.v, rr.e = rn.Resolve(context.Background(), src.Expression) })
+				ch <- rr
+			}()
+			select {
+			case rr := <-ch:
+				switch {
+				case rr.pan:
+					o.Fail(ln, "evaluation panicked: "+rr.msg[:minInt(len(rr.msg), 120)])
+				case rr.e != nil && rr.v != nil:
+					o.Fail(ln, "both a value and an error")
+				case rr.e == nil && b.want != "" && fmt.Sprint(rr.v) != b.want:
+					o.Fail(ln, fmt.Sprintf("evaluates to %.60v, required %s", rr.v, b.want))
+				case time.Since(t0) > 8*time.Second:
+					o.Fail(ln, fmt.Sprintf("took %v", time.Since(t0)))
+				}
+			case <-time.After(20 * time.Second):
+				o.Fail(ln, "evaluation did not terminate within 20 s")
+			}
+		}
+	}
 	// odd kinds: bounded-exhaustive 3-token programs over operators, builtin names and data names
 	names := []string{"n", "s", "num", "arr", "m", "t", "st", "hi", "np", "u", "len", "max", "left", "abs", "toString", "join"}
 	opsl := []string{"+", "-", "*", "/", "%", "==", "===", "<", "&&", "||", "??", "&", "|", "^", ",", "="}
@@ -914,7 +1047,7 @@ func suiteFields(o *Out, thorough bool, seed int64) {
 	o.Notes = append(o.Notes, fmt.Sprintf("exhaustive: every accepted sequence of up to %d lexemes over an 18-lexeme alphabet", k))
 	// names that differ in letter case only, prefixes of one another, repeated in every interleaving
 	{
-		nm := []string{"Total", "total", "TOTAL", "$Sum", "$sum", "row.Qty", "row.qty", "row", "Row.Qty", "tot", "totals", "a.b", "a.B", "a.b.c"}
+		nm := []string{"Total", "total", "TOTAL", "$Sum", "$sum", "row.Qty", "row.qty", "row", "Row.Qty", "tot", "totals", "a.b", "a.B", "a.b.c", "x$", "a$b", "$a$", "a.$b", "$a.b$"}
 		enumSeq(len(nm), 3, func(idx []int) {
 			if len(idx) < 2 {
 				return
@@ -1131,13 +1264,13 @@ func suiteNames(o *Out, thorough bool, seed int64) {
 	twinsEnabled = true
 	defer func() { twinsEnabled = false }()
 	inner := wmap("k", "Ii:1", "z", "Ii:0", "s", ws("str"), "n", "N", "p", "P", "b", "F", "deep", wmap("k", "Ii64:-5", "f", "G"+hx([]byte("2.5")), "u", "Iu8:3"))
-	data := wmap("a", inner, "b", wmap("a", inner), "n", "N", "p", "P", "len", "Ii:99", "max", ws("shadow"), "num", "Ii32:7", "str", ws("x"),
+	data := wmap("a", inner, "b", wmap("a", inner), "n", "N", "p", "P", "ps", "Ps", "pt", "Pt", "len", "Ii:99", "max", ws("shadow"), "num", "Ii32:7", "str", ws("x"),
 		"t", "M0:0", "arr", "A1 Ii:1", "i8", "Ii8:5", "f", "G"+hx([]byte("0.25")), "tr", "T",
 		"tm", "Q3 S"+hx([]byte("a"))+" Ii:0 S"+hx([]byte("b"))+" Ii:5 S"+hx([]byte("z"))+" Ii:-1", "pi", "G"+hx([]byte("3.141592653589793")), "amt", "G"+hx([]byte("1234567.891")), "big", "G"+hx([]byte("16777217")), "i64", "Ii64:9007199254740993", "neg", "Ii32:-2147483648", "tiny", "G"+hx([]byte("0.000001234567891")))
 	keys := []string{"a", "b", "k", "z", "n", "p", "deep", "missing", "len", "s"}
 	seps := []string{".", "!."}
 	// every path of depth 0..3 over the key universe with . / !. at each position (roots: data names and this)
-	roots := []string{"a", "b", "n", "p", "len", "max", "num", "str", "missing", "this", "arr", "i8", "f", "tr"}
+	roots := []string{"a", "b", "n", "p", "ps", "pt", "len", "max", "num", "str", "missing", "this", "arr", "i8", "f", "tr"}
 	for _, t := range []string{"tm.a", "tm.b", "tm.z", "tm.missing", "tm.a == 0", "tm.a == null", "tm!.a", "tm.a + 1", "pi", "amt", "big", "i64", "neg", "tiny", "this.pi", "this.amt", "amt == 1234567.891", "big - 16777216", "pi * 2", "i64 - 9007199254740992", "[pi, amt, big]", "tiny * 1e6"} {
 		emitEval(o, t, 0, "-", data, true)
 	}
